@@ -98,7 +98,8 @@ func (s bitmap32) And(provider Provider[uint32]) {
 		s.bitmap.And(typedProvider.bitmap)
 
 	case Duplex[uint32]:
-		s.Each(func(nextValue uint32) bool {
+		// Iterate over a snapshot: removing from the bitmap while iterating it skips values
+		s.Clone().Each(func(nextValue uint32) bool {
 			if !typedProvider.Contains(nextValue) {
 				s.Remove(nextValue)
 			}
@@ -137,7 +138,8 @@ func (s bitmap32) AndNot(provider Provider[uint32]) {
 		s.bitmap.AndNot(typedProvider.bitmap)
 
 	case Duplex[uint32]:
-		s.Each(func(nextValue uint32) bool {
+		// Iterate over a snapshot: removing from the bitmap while iterating it skips values
+		s.Clone().Each(func(nextValue uint32) bool {
 			if typedProvider.Contains(nextValue) {
 				s.Remove(nextValue)
 			}
